@@ -32,7 +32,7 @@ def cellOf (j : Json) : Except String (Cell Float) := do
     let cg := Float.cos (radians ga)
     -- vol_unitcell: a * b * c * sqrt(1 + 2 ca cb cg - ca**2 - cb**2 - cg**2)
     let v := a * b * c * Float.sqrt (1 + 2 * ca * cb * cg - ca * ca - cb * cb - cg * cg)
-    return { a, b, c, ca, cb, cg, sg := Float.sin (radians ga), v }
+    return { a, b, c, ca, cb, cg, sb := Float.sin (radians be), sg := Float.sin (radians ga), v }
   | _ => err "expected 6 cell parameters"
 
 def atomOf (j : Json) : Except String (AtomN Float) := do
@@ -74,6 +74,29 @@ def handle (j : Json) : Except String Json := do
     let C ← field j "cell" >>= cellOf
     let fs ← (← arrField j "fracs").mapM v3
     return Json.arr (fs.map fun f => let p := cart C f; ofFloats [p.x, p.y, p.z]).toArray
+  | "geomfrac" =>
+    -- four atoms given by fractional coordinates and by the way they entered the model
+    let C ← field j "cell" >>= cellOf
+    let fs ← (← arrField j "fracs").mapM v3
+    let rs ← (← arrField j "added").mapM bool
+    match fs, rs with
+    | [f1, f2, f3, f4], [r1, r2, r3, r4] =>
+      let p1 := cartVia T C r1 f1
+      let p2 := cartVia T C r2 f2
+      let p3 := cartVia T C r3 f3
+      let p4 := cartVia T C r4 f4
+      let q1 := cart C f1
+      let q2 := cart C f2
+      let q3 := cart C f3
+      let q4 := cart C f4
+      let two (m s : Float) : Json := Json.mkObj [("model", ofFloat m), ("spec", ofFloat s)]
+      return Json.mkObj [("ang", two (angleModel T p1 p2 p3) (specAngle T q1 q2 q3)),
+                         ("ang2", two (angleModel T p2 p3 p4) (specAngle T q2 q3 q4)),
+                         ("tor", two (torsionModel T p1 p2 p3 p4) (specTorsion T q1 q2 q3 q4)),
+                         ("d12", two (distanceVia T C r1 r2 f1 f2) (specDistance T C f1 f2)),
+                         ("d34", two (distanceVia T C r3 r4 f3 f4) (specDistance T C f3 f4)),
+                         ("d14", two (distanceVia T C r1 r4 f1 f4) (specDistance T C f1 f4))]
+    | _, _ => err "geomfrac: expected 4 sites and 4 flags"
   | "around" =>
     let C ← field j "cell" >>= cellOf
     let atoms ← (← arrField j "atoms").mapM atomOf
